@@ -1,4 +1,5 @@
 import libcst as cst
+from libcst import matchers as m
 from libcst.codemod.visitors import GatherUnusedImportsVisitor
 from libcst.metadata import (
     ParentNodeProvider,
@@ -37,10 +38,17 @@ class RemoveUnusedImports(SimpleCodemod):
             return tree
         gather_unused_visitor = GatherUnusedImportsVisitor(self.context)
         tree.visit(gather_unused_visitor)
+        exported = _exported_names(tree)
         # filter the gathered imports by line excludes/includes
         filtered_unused_imports = set()
         for import_alias, importt in gather_unused_visitor.unused_imports:
             pos = self.get_metadata(PositionProvider, import_alias)
+            bound_name = (
+                import_alias.evaluated_alias
+                or import_alias.evaluated_name.split(".")[0]
+            )
+            if bound_name in exported:
+                continue
             if self.filter_by_path_includes_or_excludes(pos):
                 if not is_disabled_by_annotations(
                     importt,
@@ -61,6 +69,20 @@ class RemoveUnusedImports(SimpleCodemod):
         if self.line_include:
             return any(match_line(pos_to_match, line) for line in self.line_include)
         return True
+
+
+def _exported_names(tree: cst.Module) -> set[str]:
+    """
+    The strings of every statement that builds `__all__` in a way the gathering of unused imports does not follow
+    (`__all__.append("x")`, `__all__.extend([...])`, `__all__ = base + ["x"]`): those names are exported, hence in use.
+    """
+    names: set[str] = set()
+    for stmt in m.findall(tree, m.SimpleStatementLine()):
+        if m.findall(stmt, m.Name("__all__")):
+            for string in m.findall(stmt, m.SimpleString() | m.ConcatenatedString()):
+                if isinstance(value := string.evaluated_value, str):  # type: ignore
+                    names.add(value)
+    return names
 
 
 def match_line(pos, line):
